@@ -9,7 +9,7 @@ def _call(x):
     return _FN(x)
 
 
-def pmap(fn, items, procs=None, chunksize=1):
+def pmap(fn, items, procs=None, chunksize=1, timeout=1500):
     global _FN
     items = list(items)
     procs = procs or min(16, os.cpu_count() or 1, max(1, len(items)))
@@ -18,4 +18,9 @@ def pmap(fn, items, procs=None, chunksize=1):
     _FN = fn
     ctx = mp.get_context("fork")
     with ctx.Pool(procs) as pool:
-        return pool.map(_call, items, chunksize)
+        res = pool.map_async(_call, items, chunksize)
+        try:
+            return res.get(timeout)
+        except mp.TimeoutError:
+            pool.terminate()
+            raise RuntimeError("parallel map did not finish within %ss (a worker hangs)" % timeout)
